@@ -38,13 +38,20 @@ def budget(tier):
 @st.composite
 def strategy_(draw, tier):
     g, recs = draw(conv.graph_and_records(canonical=False, max_records=6))
+    if len(recs) >= 2 and draw(st.booleans()):
+        # a later record over (part of) the walk of an earlier one: state carried from record to record shows here
+        i = draw(st.integers(0, len(recs) - 2))
+        k = draw(st.integers(i + 1, len(recs) - 1))
+        steps = [tuple(x) for x in recs[i]["steps"]]
+        cut = draw(st.integers(0, len(steps) - 1))
+        recs[k] = draw(gen_gaf.record(g, None, canonical=False, name=recs[k]["name"], steps=steps[cut:]))
     direction = draw(st.sampled_from(["u2s", "s2u"]))
     if direction == "u2s":
         lines = [gen_gaf.record_line(r) for r in recs]
     else:
         lines = [conv.stable_line(g["nodes"], r) for r in recs]
     return {"gfa": gen_graph.gfa_text(g, with_seq=True, order_seed=draw(st.integers(0, 99))),
-            "gaf": lines, "dir": direction}
+            "gaf": lines, "dir": direction, "via": draw(st.sampled_from(["api", "api", "cli", "cli_stdout"]))}
 
 
 def strategy(tier):
@@ -55,7 +62,7 @@ def run_case(case):
     nodes, links = models.nodes_from_gfa_text(case["gfa"])
     bmap = models.base_map(nodes)
     fmt = "stable" if case["dir"] == "u2s" else "unstable"
-    res, out = conv.view_convert(case["gfa"], case["gaf"], fmt)
+    res, out = conv.view_convert(case["gfa"], case["gaf"], fmt, via=case.get("via", "api"))
     core.check(res[0] == "ok", "view --format %s failed: %s", fmt, res)
     core.check(out is not None, "view --format %s wrote no complete output", fmt)
     by_name = {}
